@@ -94,6 +94,20 @@ Example elementwise_add_example :
   /\ ew_value 1 1 1 0 true 1717986918 12 0 1342177280 49 100 (-37) = 54.
 Proof. split; vm_compute; reflexivity. Qed.
 
+(* the executable semantics and the footprint model (hw/Npu.v, used by the C02 / C03 / C04 validators) agree on the table
+   look-up: the byte `activate` reads lies inside the LUT read footprint of the operation *)
+Theorem lut_lookup_inside_read_footprint :
+  forall x m r v i,
+    lut_index r = Some i -> 0 <= i <= 7 ->
+    (if ofm_signed r then -128 <= v <= 127 else 0 <= v <= 255) ->
+    exists a, activate x m r v = rd8 (get_bank m SHRAM) a /\
+              x_lut_addr x + i * 256 <= a < x_lut_addr x + i * 256 + lut_read_bytes 1 i.
+Proof.
+  intros x m r v i Hl Hi Hv. exists (lut_read_addr (x_lut_addr x) i (ofm_signed r) v). split.
+  - apply activate_reads_lut_read_addr. exact Hl.
+  - apply lut_read_inside_footprint; assumption.
+Qed.
+
 (* before the repair c949748 the multiplier 2^31 was kept where the reference renormalises: the TFL mode
    then differs from the reference (the witness found by trying to prove the theorem above) *)
 Theorem unrenormalised_multiplier_differs :
@@ -128,4 +142,5 @@ Print Assumptions conv_output_stage_is_reference.
 Print Assumptions elementwise_addsub_scaled_a_is_reference.
 Print Assumptions elementwise_addsub_scaled_b_is_reference.
 Print Assumptions elementwise_mul_is_reference.
+Print Assumptions lut_lookup_inside_read_footprint.
 Print Assumptions clamp_in_range.
